@@ -7,10 +7,14 @@ open Rrtk Rrtk.Wire
 def pUpd (s : String) : Option UpdRet :=
   if s == "ok" then some (.ok ()) else (pErr s).map .error
 
+/-- the two scripted getters of a case: number 0 (`fol`, `gs:`) and number 1 (`fol2`, `gs2:`) -/
+def scripts (g0 g1 : Output F) : Nat → Output F := fun i => if i == 0 then g0 else g1
+
 def runSeRec (evs : List String) : M Unit := do
   let mut s : SettableS F := SettableS.init
   let mut next : UpdRet := .ok ()
   let mut script : Output F := .ok none
+  let mut script2 : Output F := .ok none
   for e in evs do
     if e.startsWith "set:" then
       let v ← need (pF (e.drop 4).toString)
@@ -19,12 +23,15 @@ def runSeRec (evs : List String) : M Unit := do
     else if e.startsWith "acc:" then
       next ← need (pUpd (e.drop 4).toString); emit "-"
     else if e == "lr" then emit (sOpt sF s.lastRequest)
-    else if e == "fol" then s := s.follow; emit "-"
+    else if e == "fol" then s := s.follow 0; emit "-"
+    else if e == "fol2" then s := s.follow 1; emit "-"
     else if e == "unfol" then s := s.stopFollowing; emit "-"
     else if e.startsWith "gs:" then
       script ← need (pOut pF (e.drop 3).toString); emit "-"
+    else if e.startsWith "gs2:" then
+      script2 ← need (pOut pF (e.drop 4).toString); emit "-"
     else if e == "upd" then
-      let r := SettableS.recUpdate s script next (.ok ())
+      let r := SettableS.recUpdate s (scripts script script2) next (.ok ())
       s := r.1
       emit s!"{sUpd r.2.2};{match r.2.1 with | some v => sF v | none => "-"}"
     else throw .bad
@@ -33,6 +40,7 @@ def runSeCg (init : String) (clk : String) (evs : List String) : M Unit := do
   let mut s : ConstGetterS F := ConstGetterS.init (← need (pF init))
   let mut clk : TimeOutput ← need (pTimeOut clk)
   let mut script : Output F := .ok none
+  let mut script2 : Output F := .ok none
   for e in evs do
     if e.startsWith "clk:" then
       clk ← need (pTimeOut (e.drop 4).toString); emit "-"
@@ -40,12 +48,15 @@ def runSeCg (init : String) (clk : String) (evs : List String) : M Unit := do
     else if e.startsWith "set:" then
       s := s.set (← need (pF (e.drop 4).toString)); emit "ok"
     else if e == "lr" then emit (sOpt sF s.sd.lastRequest)
-    else if e == "fol" then s := { s with sd := s.sd.follow }; emit "-"
+    else if e == "fol" then s := { s with sd := s.sd.follow 0 }; emit "-"
+    else if e == "fol2" then s := { s with sd := s.sd.follow 1 }; emit "-"
     else if e == "unfol" then s := { s with sd := s.sd.stopFollowing }; emit "-"
     else if e.startsWith "gs:" then
       script ← need (pOut pF (e.drop 3).toString); emit "-"
+    else if e.startsWith "gs2:" then
+      script2 ← need (pOut pF (e.drop 4).toString); emit "-"
     else if e == "upd" then
-      let r := s.update script
+      let r := s.update (scripts script script2)
       s := r.1; emit (sUpd r.2)
     else throw .bad
 
